@@ -103,7 +103,7 @@ def check(run, replay=None):
 
     nconf = 24 if thorough else 6
     for k in range(nconf):
-        gp = {"minimum_pressure": rng.choice([0.0, 2.0, 5.0]), "required_pressure": rng.choice([15.0, 20.0, 30.0, 7.5]),
+        gp = {"minimum_pressure": rng.choice([0.0, 2.0, 5.0]) if k % 2 else rng.choice([2.0, 5.0]), "required_pressure": rng.choice([15.0, 20.0, 30.0, 7.5]),
               "pressure_exponent": rng.choice([0.5, 0.7, 1.0, 0.5])}
         wn = wntr.network.WaterNetworkModel()
         wn.options.hydraulic.demand_model = "PDD"
@@ -114,6 +114,10 @@ def check(run, replay=None):
         for i in range(4):
             ov = {"minimum_pressure": rng.choice([None, None, 0.0, 1.0, 3.0]), "required_pressure": rng.choice([None, None, 10.0, 12.0, 25.0]),
                   "pressure_exponent": rng.choice([None, None, 0.5, 0.6, 1.0])}
+            if i == 0:      # always one junction that overrides the minimum pressure with 0 (falsy) while the global one may be non-zero
+                ov["minimum_pressure"] = 0.0
+            if i == 1:      # and one without any override
+                ov = {"minimum_pressure": None, "required_pressure": None, "pressure_exponent": None}
             name = "J%d" % i
             wn.add_junction(name, base_demand=rng.choice([0.002, 0.005, 0.0, 0.0013]), elevation=rng.choice([0.0, 5.0, -3.0, 12.5]))
             j = wn.get_node(name)
